@@ -549,7 +549,7 @@ static void c08_setup(void)
     P_STREAMS = 2; P_W = 3; P_H = 1; P_TYPE = SampleType_u8; P_AVG = 0; P_CLIENT = 0;
     P_RING = 2 * frame_bytes(4, 1, 0) + 8; P_FRING = P_RING;
     rt_resize_rings(P_RING, P_FRING, 0x42);
-    for (int s = 0; s < 2; ++s) { VM.cam[s].width = (uint32_t)(3 + s); VM.cam[s].exposure_ms = 4; }
+    for (int s = 0; s < 2; ++s) { VM.cam[s].width = (uint32_t)(3 + s); VM.cam[s].exposure_ms = (double)vs_param("exposure_us", 4000) / 1000.0; }
     rt_watch_flags(2, (int)vs_param("watch", 1));
 }
 static void c08_configure(char which)
@@ -612,7 +612,7 @@ static void c08_run(void)
             case 'S': if (mapped) { acquire_unmap_read(RT, 0, (size_t)1 << 30); mapped = 0; } acquire_stop(RT); break;
             case 'a': acquire_abort(RT); break;
             case 'g': break;
-            case 'w': vs_sleep_ms(9); break;
+            case 'w': vs_sleep_ms((double)vs_param("wait_us", 9000) / 1000.0); break;
             case 'X':
                 acquire_shutdown(RT); ++g_c08_shutdowns; mapped = 0;
                 vs_unwatch_all();
